@@ -31,6 +31,7 @@ def main(argv=None):
             return core.do_replay(prop, modname, a.replay)
         run = core.Run(prop, tier, seed, modname)
         only = set(a.only.split(",")) if a.only else None
+        run.only = only  # families not named are skipped by Run.drive (debugging aid; the evidence says so and is marked not exhaustive)
         return mod.main(run, only) if only is not None else mod.main(run)
     except core.HarnessError as e:
         print(f"HARNESS-ERROR property={prop}: {e}")
